@@ -261,8 +261,15 @@ func (c *OpCase) RunLine(mode Mode, d Decisions) (line string, an *Analysis) {
 	items = append(items, common.L(st...), common.L("dependent", common.I(len(an.Dependent))))
 	// reference
 	refS, refErrs, goEqual := "(skip)", 0, true
+	var rop *Op
 	if !an.Mixed {
-		rop := c.W.Reference(mode, d)
+		// the static rewriting cannot express a coordinate that depends on the runtime type of an
+		// enclosing object (ParentOnTypeNames): no reference then, the position clauses still run
+		if rop = c.W.Reference(mode, d); c.W.Ambiguous {
+			rop = nil
+		}
+	}
+	if rop != nil {
 		dump, err := fedlab.DumpOperation(rop.Text())
 		if err != nil {
 			return common.L("c14", "run", c.ID, common.L("laberror", common.QS("reference operation does not parse: "+err.Error()))), an
